@@ -1,9 +1,10 @@
-SPECIFICATION Spec
+SPECIFICATION MCSpec
 CONSTANTS
-  Actors = {a1, a2, a3}
-  Victims = {a2}
-  Rounds = 1
+  Actors = {"a1", "a2", "a3"}
+  Victims = {"a2"}
+  Prog <- ProgAll
   ForwardOnCancel = TRUE
   UnlockGt = 1
-INVARIANTS MutualExclusion PopNeverEmpty QuiescentFree
+INVARIANTS MutualExclusion DataVisible PopNeverEmpty QuiescentFree TryLockSound
+VIEW View
 CHECK_DEADLOCK TRUE
